@@ -146,8 +146,10 @@ Definition accept_crate (crate_name : str) : bool :=
 
 (* ---------- visitors.rs:367-455 ItemUseIter ----------
    The explicit stack (head of the list = top = what `pop` returns). `base_name` is set by the
-   FIRST UseTree::Path popped and never changes. A Name or a Glob met while base_name is None hits
-   `.expect("base name not in use statement?")` (visitors.rs:401) - before any acceptance test.
+   FIRST UseTree::Path popped and never changes. A Name or a Glob met while base_name is None
+   (`use foo;`, `use {a, b};`, `use *;`: a leaf without a leading path names a crate or module, not a
+   type) is SKIPPED: resolve_crate_name() returns None and the loop `continue`s (since the /repo fix of
+   visitors.rs:401, where base_name() used to `.expect("base name not in use statement?")`).
    Group: `self.use_tree.extend(g.items.iter())` pushes left to right, so the LAST element is popped
    first. The loop is not structurally recursive: fuel, "fuel" when exhausted. *)
 Fixpoint use_tree_size (t : use_tree) : nat :=
@@ -169,7 +171,7 @@ Fixpoint item_use_iter (fuel : nat) (own : str) (stack : list use_tree) (base_na
         item_use_iter fuel' own (sub :: rest) (match base_name with None => Some ident | Some b => Some b end)
       | UName ident =>
         match base_name with
-        | None => Panic "visitors.rs:401"
+        | None => item_use_iter fuel' own rest base_name
         | Some b =>
           let base := resolve_crate own b in
           do more <- item_use_iter fuel' own rest base_name;
@@ -179,7 +181,7 @@ Fixpoint item_use_iter (fuel : nat) (own : str) (stack : list use_tree) (base_na
       | URename _ _ => item_use_iter fuel' own rest base_name
       | UGlob =>
         match base_name with
-        | None => Panic "visitors.rs:401"
+        | None => item_use_iter fuel' own rest base_name
         | Some b =>
           let base := resolve_crate own b in
           do more <- item_use_iter fuel' own rest base_name;
